@@ -198,6 +198,49 @@ def sites(tree):
                                                  decorator_list=[], returns=None, type_comment=None, lineno=st.lineno,
                                                  **({"type_params": []} if sys.version_info >= (3, 12) else {}))
                     out.append(("lambda-to-def", fname, st.lineno, b15))
+                # B17 x = A if c else B  ->  if c: x = A  else: x = B
+                if isinstance(st, ast.Assign) and len(st.targets) == 1 and isinstance(st.targets[0], ast.Name) \
+                        and isinstance(st.value, ast.IfExp):
+                    def b17(st=st, blk=blk, i=i):
+                        e = st.value
+                        mk = lambda v: ast.Assign(targets=[ast.Name(id=st.targets[0].id, ctx=ast.Store())], value=v, lineno=st.lineno)
+                        blk[i] = ast.If(test=e.test, body=[mk(e.body)], orelse=[mk(e.orelse)])
+                    out.append(("ifexp-to-if", fname, st.lineno, b17))
+                # B18 if c: x = A  else: x = B  ->  x = A if c else B
+                if isinstance(st, ast.If) and len(st.body) == 1 and len(st.orelse) == 1 \
+                        and all(isinstance(a, ast.Assign) and len(a.targets) == 1 and isinstance(a.targets[0], ast.Name)
+                                for a in (st.body[0], st.orelse[0])) and st.body[0].targets[0].id == st.orelse[0].targets[0].id:
+                    def b18(st=st, blk=blk, i=i):
+                        blk[i] = ast.Assign(targets=[ast.Name(id=st.body[0].targets[0].id, ctx=ast.Store())],
+                                            value=ast.IfExp(test=st.test, body=st.body[0].value, orelse=st.orelse[0].value),
+                                            lineno=st.lineno)
+                    out.append(("if-to-ifexp", fname, st.lineno, b18))
+                # B19 a = E1 ; b = E2  ->  a, b = E1, E2   (E2 does not read a, both sides effect-free)
+                if isinstance(st, ast.Assign) and i + 1 < len(blk) and isinstance(blk[i + 1], ast.Assign) \
+                        and all(len(a.targets) == 1 and isinstance(a.targets[0], ast.Name) for a in (st, blk[i + 1])):
+                    a1, a2 = st, blk[i + 1]
+                    n1, n2 = a1.targets[0].id, a2.targets[0].id
+                    simple = lambda e: all(isinstance(x, (ast.Name, ast.Constant, ast.Attribute, ast.Load, ast.BinOp, ast.operator,
+                                                          ast.UnaryOp, ast.unaryop, ast.Tuple, ast.List)) for x in ast.walk(e))
+                    reads2 = {x.id for x in ast.walk(a2.value) if isinstance(x, ast.Name)}
+                    if n1 != n2 and n1 not in reads2 and simple(a1.value) and simple(a2.value):
+                        def b19(blk=blk, i=i, a1=a1, a2=a2):
+                            blk[i:i + 2] = [ast.Assign(targets=[ast.Tuple(elts=[a1.targets[0], a2.targets[0]], ctx=ast.Store())],
+                                                       value=ast.Tuple(elts=[a1.value, a2.value], ctx=ast.Load()), lineno=a1.lineno)]
+                        out.append(("tuple-assign", fname, st.lineno, b19))
+                # B20 a, b = E1, E2  ->  a = E1 ; b = E2   (E2 does not read a)
+                if isinstance(st, ast.Assign) and len(st.targets) == 1 and isinstance(st.targets[0], ast.Tuple) \
+                        and isinstance(st.value, ast.Tuple) and len(st.value.elts) == len(st.targets[0].elts) == 2 \
+                        and all(isinstance(t, ast.Name) for t in st.targets[0].elts) \
+                        and not any(isinstance(x, ast.Starred) for x in st.value.elts):
+                    t1, t2 = st.targets[0].elts
+                    reads2 = {x.id for x in ast.walk(st.value.elts[1]) if isinstance(x, ast.Name)}
+                    pure1 = not any(isinstance(x, (ast.Call, ast.Yield, ast.YieldFrom, ast.Await)) for x in ast.walk(st.value))
+                    if t1.id != t2.id and t1.id not in reads2 and pure1:
+                        def b20(st=st, blk=blk, i=i, t1=t1, t2=t2):
+                            blk[i:i + 1] = [ast.Assign(targets=[t1], value=st.value.elts[0], lineno=st.lineno),
+                                            ast.Assign(targets=[t2], value=st.value.elts[1], lineno=st.lineno)]
+                        out.append(("tuple-split", fname, st.lineno, b20))
                 # B7 x = x + c  <->  x += c  for a numeric literal c
                 if isinstance(st, ast.AugAssign) and isinstance(st.target, ast.Name) and isinstance(st.value, ast.Constant) \
                         and isinstance(st.value.value, (int, float)) and not isinstance(st.value.value, bool) \
@@ -217,6 +260,39 @@ def sites(tree):
                     n.op = ast.Not()
                     n.operand = ast.UnaryOp(op=ast.Not(), operand=new)      # not not (..): the same truth value
                 out.append(("de-morgan", fname, n.lineno, b2))
+        # B21 not (a in b)  <->  a not in b
+        for n in ast.walk(fn):
+            if isinstance(n, ast.UnaryOp) and isinstance(n.op, ast.Not) and isinstance(n.operand, ast.Compare) \
+                    and len(n.operand.ops) == 1 and isinstance(n.operand.ops[0], (ast.In, ast.Is, ast.Eq)):
+                def b21(n=n):
+                    c = n.operand
+                    flip = {ast.In: ast.NotIn, ast.Is: ast.IsNot, ast.Eq: ast.NotEq}[type(c.ops[0])]
+                    # not (a OP b) -> (a NOP b) wrapped in `not not` to keep the node type; bool of a comparison of
+                    # builtins only - Eq on overloaded operands is skipped
+                    c.ops = [flip()]
+                    n.operand = ast.UnaryOp(op=ast.Not(), operand=c)
+                if not isinstance(n.operand.ops[0], ast.Eq):
+                    out.append(("not-compare", fname, n.lineno, b21))
+        # B22 rename the variable of a comprehension
+        for n in ast.walk(fn):
+            if isinstance(n, (ast.ListComp, ast.GeneratorExp, ast.SetComp)) and len(n.generators) == 1 \
+                    and isinstance(n.generators[0].target, ast.Name):
+                old_ = n.generators[0].target.id
+                new_ = old_ + "_c"
+                if any(isinstance(x, ast.Name) and x.id == new_ for x in ast.walk(fn)):
+                    continue
+                # the name must not be read inside the iterable (evaluated outside) nor shadow an outer use inside
+                if any(isinstance(x, ast.Name) and x.id == old_ for x in ast.walk(n.generators[0].iter)):
+                    continue
+                if any(isinstance(x, (ast.Lambda, ast.ListComp, ast.GeneratorExp, ast.SetComp, ast.DictComp)) and x is not n
+                       for x in ast.walk(n)):
+                    continue
+
+                def b22(n=n, old_=old_, new_=new_):
+                    for x in ast.walk(n):
+                        if isinstance(x, ast.Name) and x.id == old_:
+                            x.id = new_
+                out.append(("comp-var-rename", fname, n.lineno, b22))
         # B3 rename a local (functions without nested scopes only)
         if not nested and not uses_scope_tricks:
             params = {a.arg for a in fn.args.args + fn.args.kwonlyargs + fn.args.posonlyargs}
